@@ -11,19 +11,6 @@ variable {α : Type} [Scalar α]
 
 /-! ### list helpers -/
 
-theorem modify_eq_set_of_lt {β : Type} (f : β → β) :
-    ∀ (l : List β) (i : Nat) (h : i < l.length), l.modify i f = l.set i (f l[i]) := by
-  intro l
-  induction l with
-  | nil => intro i h; simp at h
-  | cons a l ih =>
-    intro i h
-    cases i with
-    | zero => simp
-    | succ i =>
-      have h' : i < l.length := by simpa using h
-      simp [ih i h']
-
 omit [Scalar α] in
 theorem scatterRow_length (i : Nat) (r : Row α) :
     ∀ (t : List (Row α)), (scatterRow t i r).length = t.length := by
